@@ -91,6 +91,15 @@ func (it *Interp) opObsReg(op *Op) {
 		if b.obsOn[op.Q] == (op.Mode == 1) {
 			return // this backend did not follow an in-callback unregistration (see DropObsOdd)
 		}
+		for k := 0; k < op.N; k++ {
+			if op.Mode == 1 {
+				b.obs[op.Q].Register(b.W)
+				b.obs[op.Q].Unregister(b.W)
+			} else {
+				b.obs[op.Q].Unregister(b.W)
+				b.obs[op.Q].Register(b.W)
+			}
+		}
 		if op.Mode == 1 {
 			b.obs[op.Q].Register(b.W)
 		} else {
@@ -98,6 +107,12 @@ func (it *Interp) opObsReg(op *Op) {
 		}
 		b.obsOn[op.Q] = op.Mode == 1
 	})
+	if op.N > 0 {
+		it.count("observer-registration-cycles")
+		if op.N > 64 {
+			it.count("observer-more-than-64-registration-cycles")
+		}
+	}
 	it.checkObserverCount()
 }
 
